@@ -37,8 +37,9 @@ const (
 //	  middleware.SamplingPercent(100)))
 func UnaryServerTrace(opts ...middleware.TraceOption) grpc.UnaryServerInterceptor {
 	o := middleware.NewTraceOptions(opts...)
+	sampler := o.NewSampler()
 	return grpc.UnaryServerInterceptor(func(ctx context.Context, req any, info *grpc.UnaryServerInfo, handler grpc.UnaryHandler) (resp any, err error) {
-		ctx = withTrace(ctx, info.FullMethod, o)
+		ctx = withTrace(ctx, info.FullMethod, o, sampler)
 		return handler(ctx, req)
 	})
 }
@@ -57,8 +58,9 @@ func UnaryServerTrace(opts ...middleware.TraceOption) grpc.UnaryServerIntercepto
 //	  middleware.MaxSamplingRate(50)))
 func StreamServerTrace(opts ...middleware.TraceOption) grpc.StreamServerInterceptor {
 	o := middleware.NewTraceOptions(opts...)
+	sampler := o.NewSampler()
 	return grpc.StreamServerInterceptor(func(srv any, ss grpc.ServerStream, info *grpc.StreamServerInfo, handler grpc.StreamHandler) error {
-		ctx := withTrace(ss.Context(), info.FullMethod, o)
+		ctx := withTrace(ss.Context(), info.FullMethod, o, sampler)
 		wss := NewWrappedServerStream(ctx, ss)
 		return handler(srv, wss)
 	})
@@ -124,8 +126,7 @@ func DiscardFromTrace(discard *regexp.Regexp) middleware.TraceOption {
 }
 
 // withTrace sets the trace ID, span ID, and parent span ID in the context.
-func withTrace(ctx context.Context, fullMethod string, opts *middleware.TraceOptions) context.Context {
-	sampler := opts.NewSampler()
+func withTrace(ctx context.Context, fullMethod string, opts *middleware.TraceOptions, sampler middleware.Sampler) context.Context {
 	md, ok := metadata.FromIncomingContext(ctx)
 	if !ok {
 		md = metadata.MD{}
